@@ -332,11 +332,18 @@ let rec predict (c : string) (obs : string) : string * string * bool =
             let overloaded = List.exists (fun o -> String.length o >= 3 && String.sub o 0 3 = "ov=") opts in
             let disc_tag = hex_of_bytes (bytes_of_ascii "discarded") in
             let seen_tags = List.filter_map (fun x -> match String.split_on_char ':' x with [t; _] -> Some t | _ -> None) (split ',' samples) in
-            (* entries are acquired in file order, one sample per acquired entry — except that when the schedule
-               ends before the file does, each instance may have acquired one more entry it gets no token for:
-               with k samples the entries that were acquired are among the first k + ninst - 1 *)
-            let k = if samples = "-" then 0 else List.length (split ',' samples) in
-            let lim = min (List.length es) (k + int_of_string ninst_s - 1) in
+            (* entries are acquired in file order and every token an instance gets for an acquired entry gives exactly ONE
+               sample (the entry's, or "discarded"): with T tokens and n entries there are k = min n T samples; when the
+               schedule ends before the file does, each instance may have acquired one more entry it gets no token for,
+               so the entries that got a token are among the first k + ninst - 1 *)
+            let tokens = List.fold_left (fun acc o ->
+              if String.length o >= 3 && String.sub o 0 3 = "ov=" then
+                (match List.map int_of_string (String.split_on_char '.' (String.sub o 3 (String.length o - 3))) with
+                 | [burst; rps; ms; _] -> burst + rps * ms / 1000 | _ -> acc)
+              else acc) 0 opts in
+            (* k = the number of samples there must be: one per token while there are entries *)
+            let k = min (List.length es) tokens in
+            let lim = if tokens >= List.length es then List.length es else min (List.length es) (k + int_of_string ninst_s - 1) in
             let es_all = es in
             let es = if overloaded then List.filter (fun e -> List.mem (hex_of_bytes e.e_tag) seen_tags) (take lim es) else es in
             let ndisc = max 0 (k - List.length es) in
